@@ -586,6 +586,7 @@ def init_rules(F, R, nm, d, m, cs):
         return
     sbb, tvm, other = sw[0]
     okl, oktag, okdata, r1 = True, True, True, True
+    r1b = True
     why = ""
     a = cs.get("ALIGN")
     want_data = payload_range("get_unchecked_mut", do, a)
@@ -648,6 +649,11 @@ def init_rules(F, R, nm, d, m, cs):
                 good = same and okedge
             if not good:
                 r1 = False
+            # the tag is in place before the first field of the new variant is written (a later field failure must not
+            # leave the OLD tag over a partly NEW payload)
+            fem = [c for c in em if c[0] in reg and c[0] != tags[0][0]]
+            if not all(body.dominates(tags[0][0], c[0]) for c in fem):
+                r1b = False
     R.ob("F6.init-tag", fn, "tag", oktag, "%s: initialising variant V stores Tag::V at the start of the slice%s" % (nm, "" if oktag else " -- " + why), where=b["span"])
     R.ob("F6.init-list", fn, "variants", okl,
          "%s: initialising variant i checks and walks the declared field list of variant i; field k goes to slot k%s" % (nm, "" if okl else " -- " + why),
@@ -657,6 +663,9 @@ def init_rules(F, R, nm, d, m, cs):
     if anyfields:
         R.ob("V5i.init-range", fn, "enum-payload-range", okdata,
              "%s: the initialiser hands the field emplacers exactly the payload the returned view covers (floor_mul(len - DATA_OFFSET, ALIGN=%s))" % (nm, a),
+             where=b["span"])
+        R.ob("R1.tag-before-fields", fn, "order", r1b,
+             "%s: the new tag is stored before any field of the new variant is emplaced (payload and tag never disagree about the variant being written)" % nm,
              where=b["span"])
         R.ob("R1.tag-after-size-gate", fn, "order", r1,
              "%s: the tag is stored only after the per-variant size check on the payload succeeded (a refused assignment keeps the old tag)" % nm,
